@@ -511,16 +511,25 @@ class RawAlgorithmsMixIn:
 
 
 
-        if isinstance(r, numpy.ndarray) and r.dtype.kind in 'iub' and r.size > 0 and numpy.all(r >= 0):
-            # an array of non-negative integer exponents: products as for a
-            # python int (no division by the zeroth coefficient)
+        if isinstance(r, numpy.ndarray) and r.dtype.kind in 'iub' and r.size > 0:
+            # an array of integer exponents: products as for a python int (no
+            # division by the zeroth coefficient), x**|r|, and the reciprocal
+            # of that where the exponent is negative
             r = r.astype(int)
+            ra = numpy.abs(r)
             y_data[...] = 0.
             y_data[0, ...] = 1.
-            for nr in range(1, int(r.max()) + 1):
+            for nr in range(1, int(ra.max()) + 1):
                 tmp = y_data.copy()
                 cls._mul(x_data, tmp, tmp)
-                y_data[...] = numpy.where(r >= nr, tmp, y_data)
+                y_data[...] = numpy.where(ra >= nr, tmp, y_data)
+            if numpy.any(r < 0):
+                one = numpy.zeros_like(y_data)
+                one[0, ...] = 1.
+                tmp = numpy.zeros_like(y_data)
+                with numpy.errstate(all='ignore'):
+                    cls._truediv(one, y_data, tmp)
+                y_data[...] = numpy.where(r < 0, tmp, y_data)
             return y_data
 
         y_data[0] = x_data[0]**r
@@ -568,11 +577,12 @@ class RawAlgorithmsMixIn:
                 cls._mul(ybar_data, tmp, tmp)
                 xbar_data += tmp
 
-        elif isinstance(r, numpy.ndarray) and r.dtype.kind in 'iub' and r.size > 0 and numpy.all(r >= 0):
-            # an array of non-negative integer exponents, as for a python int
+        elif isinstance(r, numpy.ndarray) and r.dtype.kind in 'iub' and r.size > 0:
+            # an array of integer exponents, as for a python int:
+            # xbar += ybar * r * x**(r-1)   (x**0 = 1 where r = 0)
             r = r.astype(int)
             tmp = numpy.zeros(x_data.shape, dtype=xbar_data.dtype)
-            cls._pow_real(x_data, numpy.maximum(r - 1, 0), out = tmp)
+            cls._pow_real(x_data, numpy.where(r == 0, 0, r - 1), out = tmp)
             tmp *= r
             cls._mul(ybar_data, tmp, tmp)
             xbar_data += tmp
